@@ -33,7 +33,7 @@ class C05(fw.Prop):
     shard = 150
     rule = ("grammar-based abstract terms built with the public constructors; non-trivial = the term contains an "
             "extension type / sugar class / nested sum / function type, or is a foreign serial term with an omitted "
-            "default or permuted keys")
+            "default or permuted keys; every operation put on a node of a HUGR that goes through Hugr.to_json / load_json")
     trusted = ["pydantic: JSON text <-> serial models (monitored per case: validate(dump(s)) == s)",
                "fail-closed walkers of pydantic instances and API objects (harness/c05terms.py)"]
     assumptions = ["well-formed terms: indices, sizes and tags are non-negative; names are strings"]
@@ -68,6 +68,24 @@ class C05(fw.Prop):
                 {"parent": 0, "op": "DFG", "signature": {"t": "G", "input": [], "output": []}},
                 {"parent": 0, "op": "Input", "types": []}, {"parent": 0, "op": "Output", "types": []}],
                 "edges": [[[1, 0], [2, 0]]]}},
+            # seeded C05-d: Hugr.to_json dropped every attribute whose value is JSON null, also the required ones
+            # (an unbounded nat parameter -- plain, nested in List/Tuple parameters, as the declaration of a variable
+            # argument -- and an extension constant whose payload is null): the operation sits on a node of a HUGR
+            # and goes through Hugr.to_json / Hugr.load_json
+            {"kind": "hop", "o": ["FuncDecl", "f", [[["Nat", None]], [[], [], []]]]},
+            {"kind": "hop", "o": ["FuncDefn", "f", [], [["List", ["Nat", None]], ["Tuple", [["Nat", 3], ["Nat", None]]]], []]},
+            {"kind": "hop", "o": ["Custom", "op", [[], [], []], "", "my.ext", [["V", 0, ["Nat", None]]]]},
+            {"kind": "hop", "o": ["Const", ["VExt", "ConstToken", ["Opaque", "token", "C", [], "my.ext"], "null", ["my.ext"]]]},
+            {"kind": "hop", "o": ["Const", ["VFunc", 3]]},
+            # ... and the same content in a document that this library did not write
+            {"kind": "doc", "j": {"version": "live", "nodes": [
+                {"parent": 0, "op": "Module"},
+                {"parent": 0, "op": "FuncDecl", "name": "g", "signature": {
+                    "params": [{"tp": "BoundedNat", "bound": None}, {"tp": "List", "param": {"tp": "BoundedNat", "bound": None}}],
+                    "body": {"t": "G", "input": [], "output": [], "runtime_reqs": []}}},
+                {"parent": 0, "op": "Const", "v": {"v": "Extension", "extensions": [], "typ": {"t": "Q"},
+                                                   "value": {"c": "K", "v": None}}}],
+                "edges": [], "metadata": [None, {"k": None}], "encoder": None}},
         ]
 
     def generate(self, rng, tier, ctx):
@@ -117,6 +135,17 @@ class C05(fw.Prop):
                 continue
             n_docs += 1
             cases.append({"kind": "doc", "j": j})
+        # operations / constants / parameter lists / arguments / types sitting on a node of a HUGR that goes through
+        # the JSON text path Hugr.to_json -> Hugr.load_json (drawn after every older stream: their draws are unchanged)
+        for kind in O.OP_KINDS:
+            for _ in range(6 * k):
+                cases.append({"kind": "hop", "o": O.gen_op(rng, kind, rng.choice([1, 2]))})
+        for _ in range(120 * k):
+            cases.append({"kind": "hop", "o": O.gen_carrier(rng)})
+        # foreign documents assembled from foreign serial operations (no library document involved): a module with a
+        # few children, metadata with nulls inside
+        for _ in range(60 * k):
+            cases.append({"kind": "doc", "j": O.gen_jdoc(rng)})
         import glob, os
         for f in sorted(glob.glob(os.path.join(fw.REPO, "resources", "test", "*.json")) +
                         glob.glob(os.path.join(fw.REPO, "hugr-core", "src", "hugr", "serialize", "upgrade", "testcases", "*.json"))):
@@ -242,6 +271,39 @@ class C05(fw.Prop):
             o.update(raised=None, ser=O.walk_sop(s), deser=O.lit_op_obj(d, tab), reser=O.walk_sop(d._to_serial(Node(7))),
                      f2=O.facts_lit(d), k2=O.kinds_lit(d), json_ok=T.json_identity(s), tab=tab.lit())
             return o
+        if k == "hop":
+            # the same operation as the single child of a module: encoded by Hugr.to_json (JSON text), decoded by
+            # Hugr.load_json; "deser" is the operation found on the loaded node
+            from hugr.hugr.node_port import Node
+            from hugr.hugr import Hugr
+            tab = O.Tab()
+            r0 = guard(lambda: O.build_op(case["o"]))
+            if r0[0] == "raised":
+                return {"unbuildable": r0[1]}
+            op = r0[1]
+            o = {"o": O.lit_op_obj(op, tab), "f1": O.facts_lit(op), "k1": O.kinds_lit(op)}
+            r = guard(lambda: op._to_serial(Node(7)))
+            if r[0] == "raised":
+                return {**o, "tab": tab.lit(), "raised": r[1]}
+            s = e["sops"].OpType(root=r[1])
+            h = Hugr()
+            node = h.add_node(op, metadata={"k": [1, None], "n": None})
+            r = guard(lambda: O.text_trip(h))
+            if r[0] == "raised":
+                return {**o, "tab": tab.lit(), "raised": r[1]}
+            txt, back, txt2 = r[1]
+            kids = back.children(back.root)
+            if len(back) != 2 or len(kids) != 1:
+                return {**o, "tab": tab.lit(), "raised": "NodeCount"}
+            d = back[kids[0]].op
+            # the document written holds the operation's encoding (parent 0), and the loaded HUGR writes the same document
+            doc = json.loads(txt)
+            in_doc = e["sops"].OpType.model_validate({**doc["nodes"][1], "parent": 7})
+            same_doc = (O.walk_sop(in_doc) == O.walk_sop(s) and json.loads(txt2) == doc
+                        and back[kids[0]].metadata == {"k": [1, None], "n": None} and kids[0].idx == node.idx)
+            o.update(raised=None, ser=O.walk_sop(s), deser=O.lit_op_obj(d, tab), reser=O.walk_sop(d._to_serial(Node(7))),
+                     f2=O.facts_lit(d), k2=O.kinds_lit(d), json_ok=bool(same_doc), tab=tab.lit())
+            return o
         if k == "tagsugar":
             from hugr.hugr.node_port import Node
             ops = e["ops"]
@@ -283,7 +345,7 @@ class C05(fw.Prop):
                         gbool(o["json_ok"]))
         if k == "valsugar":
             return gapp("CValSugar", o["tab"], o["s"], gbool(o["py_eq"]), o["ser_s"], o["ser_g"], o["ty_s"], o["ty_g"], o["b_s"], o["b_g"])
-        if k == "op":
+        if k in ("op", "hop"):
             if "unbuildable" in o:                      # the constructor refused the arguments: nothing to encode
                 return gapp("CSOp", "(SModule 0)", "OModule", "(SModule 0)")
             if o["raised"]:
@@ -337,7 +399,7 @@ class C05(fw.Prop):
 
     def shrink(self, case):
         k = case["kind"]
-        key = {"ty": "t", "arg": "a", "param": "p", "sugar": "s", "sty": "j", "val": "v", "valsugar": "s", "op": "o",
+        key = {"ty": "t", "arg": "a", "param": "p", "sugar": "s", "sty": "j", "val": "v", "valsugar": "s", "op": "o", "hop": "o",
                "tagsugar": "s", "sop": "j"}.get(k)
         if k == "doc":
             yield from shrink_doc(case)
